@@ -82,7 +82,7 @@ def run(chk):
         chk.sample({"query": r["text"], "result": lang.show(r)})
     rnd = random.Random(chk.seed)
     rs = [lang.gen_numeric(rnd, rnd.randint(2, 8), maxdigits=rnd.choice([3, 6, 12, 30])) for _ in range(p["random"])]
-    rs += [lang.gen_numeric(rnd, rnd.randint(2, 5), maxdigits=p["bigdigits"], big=True) for _ in range(p["big"])]
+    rs += [lang.gen_numeric(rnd, rnd.randint(2, 5), maxdigits=p["bigdigits"], big=True, budget=8 * p["bigdigits"] + 200) for _ in range(p["big"])]
     rs += [q for q in lang.repo_test_queries() if not any(c.isalpha() for c in q.replace("e", "").replace("E", ""))]
     res2, recs2 = run_strings(chk, rs, "c01-random", "random trees", chunk=600)
     for r in recs2[:3] + recs2[p["random"]:p["random"] + 1]:
